@@ -28,9 +28,14 @@ MIN_NONTRIVIAL = {"quick": 120, "thorough": 2000}
 
 DECOYS = {
     "x86": ["movl $111, %ecx", "movl $112, %ebx", "movl $111, %ebx", "movl $222, %ebx", "movq $111, %rbx",
-            ".byte 100,103,145", "movl $111, %ebx\n.byte 1,2,3", "movl $111, %ebx\n.align 16"],
+            ".byte 100,103,145", "movl $111, %ebx\n.byte 1,2,3", "movl $111, %ebx\n.align 16",
+            # right marker bytes after a mov of another value / into another register
+            "movl $112, %ebx\n.byte 100,103,144", "movl $111, %ecx\n.byte 100,103,144",
+            "movl $221, %ebx\n.byte 100,103,144"],
     "aarch64": ["mov x2, #111", "mov x1, #112", "mov x1, #111", "mov x1, #222", "mov w1, #111",
-                ".byte 213,3,32,30", "mov x1, #111\n.byte 1,2,3,4", "mov x1, #111\n.align 4"],
+                ".byte 213,3,32,30", "mov x1, #111\n.byte 1,2,3,4", "mov x1, #111\n.align 4",
+                "mov x1, #112\n.byte 213,3,32,31", "mov x2, #111\n.byte 213,3,32,31",
+                "mov x1, #221\n.byte 213,3,32,31"],
 }
 PLAIN = {"x86": ["xorl %eax, %eax", "addq $8, %rsi", "vaddpd %xmm1, %xmm2, %xmm3"],
          "aarch64": ["add x3, x3, #8", "mov x9, x10", "fadd d1, d2, d3"]}
